@@ -9,6 +9,12 @@ COMMON_TRUSTED = [
 ]
 
 
+# (file under coq/Gen, acra-vh arguments that print it): regenerated from /repo on every run
+GENERATORS = [
+    ("Consts.v", ["consts"]),
+]
+
+
 def dom(name, run_mod, nq, nt, model=True):
     return {"name": name, "run_vo": run_mod.replace(".", "/") + ".vo", "n_quick": nq, "n_thorough": nt, "model": model}
 
